@@ -10,6 +10,13 @@
 (*   ring   b, res                                                             *)
 (*   local  a, nbrs, bonds, v2                                                 *)
 (*   match  pn, pel, pb = [[a, b], ..], maps, mode, must                       *)
+(* histories on the SAME objects (queries, in-place edit, queries again):       *)
+(*   edit    op, a, b, e, i, o2 + n, el, bonds = the graph the object shows     *)
+(*           afterwards (op: relabel label rebond connect delbond addatom       *)
+(*           delatom); the spec applies the edit to g and requires that graph   *)
+(*   pattern pn, pel, pb        the pattern object of the history               *)
+(*   pedit   op, a, e, i, o2    in-place edit of the pattern object             *)
+(*   matchp  pel, maps, mode    match of the (edited) pattern object            *)
 EXTENDS GraphQ, Json, IOUtils, TLCExt
 VARIABLES ti, l, j
 tvars == <<vars, ti, l, j>>
@@ -35,10 +42,14 @@ TYield == /\ Ev.ev = "bfs" /\ j >= 1 /\ j <= Len(Ev.y)
 TEnd   == /\ Ev.ev = "bfs" /\ j = Len(Ev.y) + 1 /\ AbsEnd /\ j' = 0 /\ l' = l + 1
 TRing  == /\ Ev.ev = "ring" /\ j = 0 /\ AbsRing(Ev.b, Ev.res) /\ j' = 0 /\ l' = l + 1
 TLocal == /\ Ev.ev = "local" /\ j = 0 /\ AbsLocal(Ev.a, Ev.nbrs, Ev.bonds, Ev.v2) /\ j' = 0 /\ l' = l + 1
+TEdit    == /\ Ev.ev = "edit" /\ j = 0 /\ AbsEdit(Ev, GraphOf(Ev)) /\ j' = 0 /\ l' = l + 1
+TPattern == /\ Ev.ev = "pattern" /\ j = 0 /\ AbsPattern(PatOf(Ev)) /\ j' = 0 /\ l' = l + 1
+TPatEdit == /\ Ev.ev = "pedit" /\ j = 0 /\ AbsPatEdit(Ev) /\ j' = 0 /\ l' = l + 1
+TMatchP  == /\ Ev.ev = "matchp" /\ j = 0 /\ AbsMatchP(Ev.pel, Ev.maps, Ev.mode) /\ j' = 0 /\ l' = l + 1
 TMatch == /\ Ev.ev = "match" /\ j = 0 /\ AbsMatch(PatOf(Ev), Ev.maps, Ev.mode, Ev.must) /\ j' = 0 /\ l' = l + 1
 
 Step == /\ ti <= NT /\ l <= Len(Tr)
-        /\ (TGraph \/ TBegin \/ TYield \/ TEnd \/ TRing \/ TLocal \/ TMatch)
+        /\ (TGraph \/ TBegin \/ TYield \/ TEnd \/ TRing \/ TLocal \/ TMatch \/ TEdit \/ TPattern \/ TPatEdit \/ TMatchP)
         /\ ti' = ti
 
 (* which clause the unexplained event breaks (diagnostic only) *)
@@ -47,7 +58,7 @@ Why == IF Ev.ev # "bfs" THEN {Ev.ev}
        ELSE IF j > Len(Ev.y) THEN {"NoneMissed"}
        ELSE LET a == Ev.y[j][1] IN
             CheckYield(tgt, seen, lastk, a, IF Ev.api = "bfs" /\ a \in DOMAIN tgt THEN tgt[a] ELSE Ev.y[j][2])
-Reset == /\ g' = NoGraph /\ adj' = AdjOf(NoGraph) /\ BackToIdle /\ last' = [act |-> "init"]
+Reset == /\ g' = NoGraph /\ adj' = AdjOf(NoGraph) /\ pat' = NoGraph /\ memo' = NoGraph /\ edits' = 0 /\ BackToIdle /\ last' = [act |-> "init"]
 NextTrace == ti' = ti + 1 /\ l' = 1 /\ j' = 0 /\ Reset
 Finish == /\ ti <= NT /\ l = Len(Tr) + 1
           /\ PrintT(<<"VERDICT", Traces[ti].tid, "ACCEPT">>)
